@@ -198,7 +198,7 @@ LayoutOK(live, next, cfg, segs, stale) ==
   /\ \A i \in 1..Len(segs) :
         /\ segs[i].parsed /\ segs[i].exact /\ segs[i].backtoback
         /\ segs[i].offs # <<>> => segs[i].firstisbase
-        /\ segs[i].ixpresent => (segs[i].ixbase /\ (cfg.mono => segs[i].ixts))
+        /\ segs[i].ixpresent => (segs[i].ixbase /\ (cfg.mono => segs[i].ixts) /\ segs[i].ixrun)   \* ixrun: timestamps = running maximum of the message times
         /\ i < Len(segs) => /\ segs[i].offs # <<>>
                             /\ segs[i].base < segs[i+1].base
                             /\ SegLast(segs[i]) < segs[i+1].base
